@@ -142,6 +142,9 @@ func runQuoted(c *ctx) {
 	}
 	each := func(vals []string, answers []string) {
 		for vi, v := range vals {
+			if !c.thor && len(v) > 800 {
+				v = v[:400] + v[len(v)-400:] // quick tier: the very long values shortened (the model run is quadratic in them)
+			}
 			for oi, offer := range offersFor(v) {
 				if !c.thor && oi > 0 && (vi+oi)%3 != 0 {
 					continue
